@@ -4,7 +4,7 @@ import contracts.compute as CP
 import contracts.chunk as CH
 import contracts.standins_iter as B
 
-PROVED = [CP.do_compute_1, CP.do_compute_2, CP.do_compute_3, CH.chunk_split, CH.concatenate2, CH.merge2]
+PROVED = [CP.do_compute_1, CP.do_compute_2, CP.do_compute_3, CH.chunk_split, CH.concatenate2, CH.merge2, CP.fetch_chunk]
 
 PROPERTY = Property(
     "C08", "exploration",
@@ -14,13 +14,16 @@ PROPERTY = Property(
     trusted=["pyvc VC generator and value model", "z3 5.1.0 / cvc5 1.4.0"],
     assumptions=["do_compute is verified per arity (1, 2, 3 keyword inputs) for single-output plugins (save_when one SaveWhen value); "
                  "compute, _fix_output and _check_subruns_uniqueness are abstract calls whose arguments are recorded",
+                 "Plugin._fetch_chunk: the iterator, the buffers and the chunks are opaque values; Chunk.concatenate is represented by an uninterpreted function of (first, second, allow_superrun) whose own contract is proved for two chunks of one run; next() either hands over a value or raises StopIteration (other exceptions of the source pass through unchanged and are not modelled)",
                  "Plugin.iter itself (pacemaker, fetch loops, re-trim passes, end-of-run checks: a generator over a dict of input "
                  "buffers) is NOT proved: bounded stand-in on the real code"],
     explanation="Plugin.do_compute, for every pair / triple of input chunks: a plugin that saves by default reaches its computation only "
                 "with inputs that all cover one identical time interval (otherwise ValueError before compute), the computation gets "
                 "exactly the rows of every input (and chunk_i / start / end exactly when it takes them), the result is declared to "
                 "cover exactly that interval and inherits the inputs' common run annotations; Chunk.split (used for every trim) obeys the "
-                "laws of chunking.  End to end (bounded): through the real Plugin.iter every call is time-aligned, calls are adjacent, "
+                "laws of chunking; Plugin._fetch_chunk appends the next chunk of exactly the data type asked for behind what is buffered (nothing "
+                "dropped, order kept), answers False only for an exhausted source whose buffer reaches the time needed, raises otherwise, and leaves "
+                "the buffer alone when the source is exhausted.  End to end (bounded): through the real Plugin.iter every call is time-aligned, calls are adjacent, "
                 "same-kind inputs arrive merged row by row, every input row is delivered exactly once in order, and a saving plugin raises "
                 "when rows cannot be delivered (trailing zero-duration chunks are accepted: F11, fixed).",
 )
